@@ -268,3 +268,15 @@ Definition entry_count_tags {A} (k : string) (text : string) (rb : res (list A))
   | Ok l => tag_if (negb (Nat.eqb (List.length l) (text_line_count text))) ("viol:" +++ k +++ "-entry-count-differs-from-line-count")
   | _ => []
   end.
+
+(* ---- a database of several records ---------------------------------------------------------
+   The reader returns one record per written record, in order, each judged like a
+   single one. *)
+Fixpoint db_rt_tags (rs : list (pkg * list hdr)) (l : list (pkg * list hdr)) : list string :=
+  match rs, l with
+  | [], [] => []
+  | (p, files) :: rs', r :: l' => installed_rt_tags p files (Ok [r]) ++ db_rt_tags rs' l'
+  | _, _ => ["viol:installed-db-record-count"]
+  end.
+Definition db_tags (rs : list (pkg * list hdr)) (rb : res (list (pkg * list hdr))) : list string :=
+  match rb with Ok l => db_rt_tags rs l | _ => ["viol:installed-readback-failed"] end.
